@@ -30,6 +30,47 @@ def _assigns(fn, field):
                     for t in a.targets)]
 
 
+def _simulate_inlined(repo):
+    """SBMLModel.simulate with the private helpers that hand the vector to
+    the solver (`_set_state`, `_set_const`, whatever they are called)
+    substituted in: the rules read one method, wherever the code sits."""
+    import copy
+    from .. import inline
+    fn0 = repo.method(CLS, 'simulate')
+    fn = copy.deepcopy(fn0)
+    inl = inline.Inliner(repo, set())
+    try:
+        inl.function(fn, CLS)
+    except Exception:
+        fn = copy.deepcopy(fn0)
+    for parent in ast.walk(fn):
+        for child in ast.iter_child_nodes(parent):
+            child._parent = parent
+    fn._parent = getattr(fn0, '_parent', None)
+    return fn
+
+
+def _slice_of_parameters(e, fn, depth=0):
+    """(lower, upper) texts if e is (a copy / a name bound to) a slice
+    `parameters[lo:hi]` of simulate's first argument."""
+    if isinstance(e, ast.Call) and U(e.func) in (
+            'np.array', 'np.asarray', 'np.copy', 'list') and e.args:
+        return _slice_of_parameters(e.args[0], fn, depth)
+    if isinstance(e, ast.Subscript) and isinstance(e.slice, ast.Slice) \
+            and U(e.value) == 'parameters':
+        return (U(e.slice.lower) if e.slice.lower is not None else '',
+                U(e.slice.upper) if e.slice.upper is not None else '')
+    if isinstance(e, ast.Name) and depth < 4:
+        d = [a for a in ast.walk(fn) if isinstance(a, ast.Assign)
+             and len(a.targets) == 1 and U(a.targets[0]) == e.id]
+        outs = {_slice_of_parameters(a.value, fn, depth + 1) for a in d}
+        outs.discard(None)
+        # `x = parameters[a:b]; x = np.array(x)` keeps the slice
+        if len(outs) == 1:
+            return outs.pop()
+    return None
+
+
 def r09_1(ctx, repo):
     rule = 'R09.1'
     fn = repo.method(CLS, '_set_number_and_names')
@@ -60,45 +101,93 @@ def r09_1(ctx, repo):
             ctx.error(rule, '%s: %s is not built with sorted(...)' % (
                 construct, f))
     # simulate: boundary
-    fn = repo.method(CLS, 'simulate')
+    fn = _simulate_inlined(repo)
     construct = CLS + '.simulate'
     st = [c for c in ast.walk(fn) if isinstance(c, ast.Call)
-          and U(c.func) == 'self._set_state']
+          and U(c.func).endswith('_simulator.set_state') and c.args]
     co = [c for c in ast.walk(fn) if isinstance(c, ast.Call)
-          and U(c.func) == 'self._set_const']
-    ok = len(st) == 1 and len(co) == 1 and U(st[0].args[0]).replace(
-        ' ', '') == 'parameters[:self._n_states]' and U(
-        co[0].args[0]).replace(' ', '') == 'parameters[self._n_states:]'
+          and U(c.func).endswith('_simulator.set_constant')
+          and len(c.args) == 2]
+    s_src = None
+    if len(st) == 1:
+        a = st[0].args[0]
+        # the gather with the stored permutation is R09.2's business
+        while isinstance(a, ast.Subscript) and not isinstance(
+                a.slice, ast.Slice):
+            a = a.value
+        if isinstance(a, ast.Name):
+            # follow `x = x[perm]` re-bindings back to the slice
+            seen = set()
+            cur = a
+            while isinstance(cur, ast.Name) and cur.id not in seen:
+                seen.add(cur.id)
+                d = [x for x in ast.walk(fn) if isinstance(x, ast.Assign)
+                     and len(x.targets) == 1 and U(x.targets[0]) == cur.id]
+                nxt = None
+                for x in d:
+                    v = x.value
+                    while isinstance(v, ast.Subscript) and not isinstance(
+                            v.slice, ast.Slice):
+                        v = v.value
+                    got = _slice_of_parameters(v, fn)
+                    if got is not None:
+                        s_src = got
+                    elif isinstance(v, ast.Call) and v.args and isinstance(
+                            v.args[0], ast.Name):
+                        nxt = v.args[0]
+                    elif isinstance(v, ast.Name):
+                        nxt = v
+                if s_src is not None or nxt is None:
+                    break
+                cur = nxt
+        else:
+            s_src = _slice_of_parameters(a, fn)
+    c_src = None
+    c_pair = False
+    if len(co) == 1:
+        val = co[0].args[1]
+        sub = [x for x in ast.walk(val) if isinstance(x, ast.Subscript)
+               and not isinstance(x.slice, ast.Slice)]
+        loop = None
+        cur = getattr(co[0], '_parent', None)
+        while cur is not None and cur is not fn:
+            if isinstance(cur, ast.For):
+                loop = cur
+                break
+            cur = getattr(cur, '_parent', None)
+        if sub and loop is not None:
+            c_src = _slice_of_parameters(sub[0].value, fn)
+            it = loop.iter
+            if isinstance(it, ast.Call) and U(it.func) == 'enumerate' \
+                    and it.args and U(it.args[0]) == 'self._const_names' \
+                    and isinstance(loop.target, ast.Tuple):
+                i, v = [U(x) for x in loop.target.elts]
+                c_pair = U(co[0].args[0]) == v and U(sub[0].slice) == i
+            elif isinstance(it, ast.Call) and U(it.func) == 'zip' \
+                    and len(it.args) == 2 and isinstance(
+                        loop.target, ast.Tuple):
+                names = [U(x) for x in it.args]
+                tg = [U(x) for x in loop.target.elts]
+                if 'self._const_names' in names:
+                    k = names.index('self._const_names')
+                    c_pair = U(co[0].args[0]) == tg[k]
+                    c_src = _slice_of_parameters(it.args[1 - k], fn)
+    ok = s_src == ('', 'self._n_states') and c_src == ('self._n_states', '')
     if ok:
         ctx.ok(rule, repo.loc(fn, CLS, fn.name), construct,
                'states get parameters[:n_states], constants the rest')
-    elif len(st) == 1 and len(co) == 1 and isinstance(
-            st[0].args[0], ast.Subscript) and isinstance(
-            co[0].args[0], ast.Subscript):
+    elif s_src is not None and c_src is not None:
         ctx.violation(
             rule, repo.loc(fn, CLS, fn.name), construct, 'boundary',
             'the parameter vector is not split at self._n_states into '
-            '(initial states | constants): states get `%s`, constants `%s`'
-            % (U(st[0].args[0]), U(co[0].args[0])))
+            '(initial states | constants): states get `parameters[%s:%s]`, '
+            'constants `parameters[%s:%s]`' % (s_src + c_src))
     else:
         ctx.error(rule, '%s: state / constant assignment outside the '
                   'recognised idiom' % construct)
-    # _set_const pairing
-    fn = repo.method(CLS, '_set_const')
-    construct = CLS + '._set_const'
-    loops = [l for l in ast.walk(fn) if isinstance(l, ast.For)]
-    ok = False
-    if len(loops) == 1 and isinstance(loops[0].iter, ast.Call) and U(
-            loops[0].iter.func) == 'enumerate' and U(
-            loops[0].iter.args[0]) == 'self._const_names':
-        i, v = [U(x) for x in loops[0].target.elts]
-        calls = [c for c in ast.walk(loops[0]) if isinstance(c, ast.Call)
-                 and U(c.func).endswith('set_constant')]
-        if len(calls) == 1 and U(calls[0].args[0]) == v and \
-                'parameters[%s]' % i in U(calls[0].args[1]):
-            ok = True
-    if ok:
-        ctx.ok(rule, repo.loc(fn, CLS, fn.name), construct,
+    # pairing of the constants with their published names
+    if c_pair:
+        ctx.ok(rule, repo.loc(co[0], CLS, fn.name), construct,
                'constant k of the published list receives parameters[k]')
     else:
         ctx.error(rule, '%s: constants are not assigned by one enumerate '
@@ -168,8 +257,8 @@ def r09_2(ctx, repo):
         ctx.violation(rule, repo.loc(fn, CLS, fn.name), construct,
                       'names source', 'the permutation is not computed from '
                       'the list whose sorted copy is published')
-    use = repo.method(CLS, '_set_state')
-    uconstruct = CLS + '._set_state'
+    use = _simulate_inlined(repo)
+    uconstruct = CLS + '.simulate'
     fields = {k: v for k, v in kind.items() if k.startswith('self.')
               and v in ('SORT', 'INV')}
     n = 0
